@@ -81,6 +81,105 @@ def _sub_key(n):
     return None
 
 
+def straightline(src, fn, targets, params, tables, consts):
+    """Symbolic execution of the straight-line arithmetic at the top level of `fn` up to the assignment of the last
+    target: every value is a real-number term (string) over the parameters.  Accepted statements: `v = <expr>`,
+    `v op= <expr>`, the identity copies `v = np.array(v|v_in, ...)`, in-place `np.deg2rad(v, v)`; <expr> is built from
+    names, numeric literals, + - * / unary minus, sin/cos/np.sin/np.cos/deg2rad, table[i] and _sdsspar["k"].
+    Statements that do not assign any name the targets depend on are skipped only if they are docstrings, `if` blocks
+    that raise or fill the constant tables, or assignments of names never used afterwards (checked: an unknown
+    name inside a needed expression raises).  Returns None when a target is never assigned (as-found shapes)."""
+    env = dict((k, v) for k, v in params.items())
+
+    def ex(n):
+        if isinstance(n, ast.Name):
+            if n.id in env:
+                return env[n.id]
+            if n.id in consts:
+                return consts[n.id]
+            raise TranslateError("%s: name %r used before a translatable assignment (line %d)" % (fn.name, n.id, n.lineno))
+        if isinstance(n, ast.Constant) or (isinstance(n, ast.UnaryOp) and isinstance(n.operand, ast.Constant)):
+            return _r(src.num(n))
+        if isinstance(n, ast.UnaryOp) and isinstance(n.op, ast.USub):
+            return "(- %s)" % ex(n.operand)
+        if isinstance(n, ast.BinOp) and type(n.op) in (ast.Add, ast.Sub, ast.Mult, ast.Div):
+            op = {ast.Add: "+", ast.Sub: "-", ast.Mult: "*", ast.Div: "/"}[type(n.op)]
+            return "(%s %s %s)" % (ex(n.left), op, ex(n.right))
+        if isinstance(n, ast.Subscript):
+            k = _sub_key(n)
+            if k is not None and ("_sdsspar:" + k) in consts:
+                return consts["_sdsspar:" + k]
+            if isinstance(n.value, ast.Name) and n.value.id in tables and _is_name(n.slice, "i"):
+                return tables[n.value.id]
+            raise TranslateError("%s: subscript at line %d" % (fn.name, n.lineno))
+        if isinstance(n, ast.Call) and len(n.args) == 1 and not n.keywords:
+            f = n.func.id if isinstance(n.func, ast.Name) else (n.func.attr if isinstance(n.func, ast.Attribute) and _is_name(n.func.value, "np") else None)
+            if f in ("sin", "cos"):
+                return "(%s %s)" % (f, ex(n.args[0]))
+            if f == "deg2rad":
+                return "(%s * D2R)" % ex(n.args[0])
+        raise TranslateError("%s: expression at line %d is outside the translatable fragment" % (fn.name, getattr(n, "lineno", 0)))
+
+    done = set()
+    for st in fn.body:
+        if isinstance(st, ast.Expr) and isinstance(st.value, ast.Constant):
+            continue
+        if isinstance(st, ast.Assign) and len(st.targets) == 1 and isinstance(st.targets[0], ast.Name):
+            t, v = st.targets[0].id, st.value
+            # identity copies: v = np.array(w, ndmin=1, copy=True, dtype=...) / np.atleast_1d(w)
+            if isinstance(v, ast.Call) and isinstance(v.func, ast.Attribute) and _is_name(v.func.value, "np") \
+                    and v.func.attr in ("array", "atleast_1d") and len(v.args) == 1 and isinstance(v.args[0], ast.Name):
+                w = v.args[0].id
+                w2 = w[:-3] if w.endswith("_in") else w
+                if w in env:
+                    env[t] = env[w]
+                elif w2 in env:
+                    env[t] = env[w2]
+                else:
+                    env.pop(t, None)
+                continue
+            try:
+                env[t] = ex(v)
+            except TranslateError:
+                if t in targets:
+                    raise
+                env.pop(t, None)          # not translatable: the name becomes unknown (an error if needed later)
+            if t in targets:
+                done.add(t)
+                if done == set(targets):
+                    return tuple(env[k] for k in targets)
+            continue
+        if isinstance(st, ast.AugAssign) and isinstance(st.target, ast.Name) and type(st.op) in (ast.Add, ast.Sub, ast.Mult, ast.Div):
+            t = st.target.id
+            op = {ast.Add: "+", ast.Sub: "-", ast.Mult: "*", ast.Div: "/"}[type(st.op)]
+            if t in env:
+                try:
+                    env[t] = "(%s %s %s)" % (env[t], op, ex(st.value))
+                except TranslateError:
+                    env.pop(t, None)
+            continue
+        if isinstance(st, ast.Expr) and isinstance(st.value, ast.Call) and isinstance(st.value.func, ast.Attribute) \
+                and st.value.func.attr == "deg2rad" and len(st.value.args) == 2 \
+                and all(isinstance(a, ast.Name) for a in st.value.args) and st.value.args[0].id == st.value.args[1].id:
+            t = st.value.args[0].id
+            if t in env:
+                env[t] = "(%s * D2R)" % env[t]
+            continue
+        if isinstance(st, ast.If):
+            # allowed: blocks that raise, set is_scalar, or fill the tables (no assignment to a name we track as arithmetic)
+            assigned = {n.targets[0].id for n in ast.walk(st) if isinstance(n, ast.Assign) and isinstance(n.targets[0], ast.Name)}
+            assigned |= {n.target.id for n in ast.walk(st) if isinstance(n, ast.AugAssign) and isinstance(n.target, ast.Name)}
+            for t in assigned:
+                if t in env and t not in tables:
+                    env.pop(t, None)
+            continue
+        # anything else (tuple assignment of np.where, bare calls): names it may change become unknown
+        for n in ast.walk(st):
+            if isinstance(n, ast.Name) and isinstance(n.ctx, ast.Store):
+                env.pop(n.id, None)
+    return None
+
+
 CMP = {ast.Gt: "CGt", ast.GtE: "CGe", ast.Lt: "CLt", ast.LtE: "CLe", ast.Eq: "CEq"}
 
 
@@ -329,6 +428,22 @@ def extract(path):
     else:
         _need(not units_if[0].orelse, "no else branch of `if units == \"deg\"` in xyz2eq")
         c["xyz2eq_rad_wrap_2pi"] = False
+    # ---- straight-line formulas (T-expr): the three components computed by euler / rotate / _thetaphi2xyz /
+    #      eq2sdss / sdss2eq, translated expression by expression into real-number terms
+    c["formulas"] = {
+        "euler": straightline(s, s.funcs["euler"], ("x", "y", "z"), {"ai": "ai", "bi": "bi"},
+                              {"psi": "psi", "stheta": "stheta", "ctheta": "ctheta", "phi": "phi"}, {"D2R": "D2R"}),
+        "rotate": straightline(s, s.funcs["rotate"], ("x", "y", "z"),
+                               {"phi": "phi", "theta": "theta", "psi": "psi", "ra": "ra", "dec": "dec"}, {}, {"D2R": "D2R"})
+        if c["lat_atan2"]["rotate"] else None,
+        "thetaphi2xyz": straightline(s, s.funcs["_thetaphi2xyz"], ("x", "y", "z"), {"theta": "theta", "phi": "phi"}, {}, {}),
+        "sdss2eq": straightline(s, s.funcs["sdss2eq"], ("x", "y", "z"), {"clambda": "clambda", "ceta": "ceta"}, {},
+                                {"D2R": "D2R", "_sdsspar:etapole": "sdss_etapole", "_sdsspar:node": "sdss_node"}),
+        "eq2sdss": straightline(s, s.funcs["eq2sdss"], ("x", "y", "z"), {"ra": "ra", "dec": "dec"}, {},
+                                {"D2R": "D2R", "_sdsspar:etapole": "sdss_etapole", "_sdsspar:node": "sdss_node"}),
+    }
+    if not c["lat_atan2"]["euler"]:
+        c["formulas"]["euler"] = None      # as-found code never forms x, y, z
     # shiftra just forwards
     rets = [n for n in ast.walk(s.funcs["shiftra"]) if isinstance(n, ast.Return)]
     _need(len(rets) == 1 and isinstance(rets[0].value, ast.Call) and _is_name(rets[0].value.func, "shiftlon"), "shiftra calls shiftlon")
@@ -411,6 +526,16 @@ def emit(c):
         w("Definition %s_lat_atan2 : bool := %s." % (k, "true" if c["lat_atan2"][k] else "false"))
     w("(* xyz2eq(units='rad'): true = negative ra wrapped by 2*PI; false = atbound(theta, 0, 360) applied to radians *)")
     w("Definition xyz2eq_rad_wrap_2pi : bool := %s." % ("true" if c["xyz2eq_rad_wrap_2pi"] else "false"))
+    w("")
+    w("(* the three components computed by each routine, translated expression by expression from the source *)")
+    sig = {"euler": "(psi stheta ctheta phi ai bi : R)", "rotate": "(phi theta psi ra dec : R)", "thetaphi2xyz": "(theta phi : R)",
+           "sdss2eq": "(clambda ceta : R)", "eq2sdss": "(ra dec : R)"}
+    for k in ("euler", "rotate", "thetaphi2xyz", "sdss2eq", "eq2sdss"):
+        f = c["formulas"][k]
+        if f is None:
+            w("Definition %s_xyz_src %s : option (R * R * R) := None.  (* the code does not form x, y, z *)" % (k, sig[k]))
+        else:
+            w("Definition %s_xyz_src %s : option (R * R * R) :=\n  Some (%s,\n        %s,\n        %s)." % (k, sig[k], f[0], f[1], f[2]))
     w("")
     w("(* shiftlon (exact rationals, Q) *)")
     w("Definition shift_mod : Q := %s." % _q(c["shift_mod"]))
